@@ -153,8 +153,11 @@ int main(int argc, char **argv) {
                 "expect_alive");
       vh::Capture cap;
       cap.begin();
+      const bool read_result = f.size() > 2 && f[2] == "read-result";
       o = vh::classify([&]() -> std::string {
-        chai->eval(f[1]);
+        Boxed_Value result = chai->eval(f[1]);
+        // the value eval() hands to C++ is a referrer too: reading it must be safe
+        if (read_result) return vh::render(result);
         return "";
       });
       out = cap.end();
